@@ -4,6 +4,7 @@
 use crate::gen_alias;
 use crate::gen_dict;
 use crate::gen_fault;
+use crate::gen_flow;
 use crate::gen_stream;
 use crate::rng::{mix3, tag};
 use crate::run::*;
@@ -43,6 +44,14 @@ pub fn generate(profile: &str, seed: u64, index: u64) -> Generated {
         }
         "stream" => {
             let o = gen_stream::generate(seed, fault_free);
+            Generated {
+                script: o.script,
+                kinds: o.kinds,
+                nontrivial: o.nontrivial,
+            }
+        }
+        "flow" => {
+            let o = gen_flow::generate(seed, fault_free);
             Generated {
                 script: o.script,
                 kinds: o.kinds,
@@ -105,6 +114,7 @@ pub struct Agg {
     pub samples: Vec<serde_json::Value>,
     pub t_gen: f64,
     pub t_exec: f64,
+    pub slowest: (f64, f64, u64),
 }
 
 fn hash_str(s: &str) -> u64 {
@@ -194,6 +204,9 @@ pub fn run_batch(cfg: &BatchCfg) -> (Agg, f64, bool) {
                     let t2 = Instant::now();
                     local.t_gen += (t1 - t0).as_secs_f64();
                     local.t_exec += (t2 - t1).as_secs_f64();
+                    if (t2 - t0).as_secs_f64() > local.slowest.0 + local.slowest.1 {
+                        local.slowest = ((t1 - t0).as_secs_f64(), (t2 - t1).as_secs_f64(), i);
+                    }
                     local.runs += 1;
                     let rend = rendered(&g.script);
                     let sh = hash_str(&rend.join("\n"));
@@ -332,6 +345,9 @@ fn merge(a: &mut Agg, b: Agg) {
     a.runs += b.runs;
     a.t_gen += b.t_gen;
     a.t_exec += b.t_exec;
+    if b.slowest.0 + b.slowest.1 > a.slowest.0 + a.slowest.1 {
+        a.slowest = b.slowest;
+    }
     a.completed += b.completed;
     a.inconclusive += b.inconclusive;
     a.stmts += b.stmts;
@@ -445,6 +461,7 @@ pub fn profiles_for(property: &str, tier: &str) -> Vec<(&'static str, u64)> {
     let nb = gen_fault::global_names().len() as u64;
     match property {
         "C01" => vec![("alias", if thorough { 3_000_000 } else { 200_000 })],
+        "C05" => vec![("flow", if thorough { 2_000_000 } else { 120_000 })],
         "C09" => vec![("dict", if thorough { 3_000_000 } else { 200_000 })],
         "C11" => vec![("stream", if thorough { 3_000_000 } else { 200_000 })],
         "C14" => {
@@ -453,9 +470,18 @@ pub fn profiles_for(property: &str, tier: &str) -> Vec<(&'static str, u64)> {
                     ("sweep-full", nb * gen_fault::parts_per_builtin()),
                     ("sweep", nb * 12),
                     ("alias", 600_000),
+                    ("flow", 400_000),
+                    ("stream", 300_000),
+                    ("dict", 300_000),
                 ]
             } else {
-                vec![("sweep", nb * 3), ("alias", 60_000)]
+                vec![
+                    ("sweep", nb * 3),
+                    ("alias", 60_000),
+                    ("flow", 40_000),
+                    ("stream", 30_000),
+                    ("dict", 30_000),
+                ]
             }
         }
         p => panic!("no profile for property {}", p),
@@ -808,7 +834,10 @@ pub fn main(args: Vec<String>) -> i32 {
                 wall,
                 capped
             );
-            println!("t_gen={:.2}s t_exec={:.2}s (thread-seconds)", agg.t_gen, agg.t_exec);
+            println!(
+                "t_gen={:.2}s t_exec={:.2}s (thread-seconds); slowest run: gen {:.2}s exec {:.2}s index {}",
+                agg.t_gen, agg.t_exec, agg.slowest.0, agg.slowest.1, agg.slowest.2
+            );
             println!("inconclusive reasons: {:?}", agg.inconclusive_reasons);
             println!("kinds: {:?}", agg.kinds);
             println!("probes: {:?}", agg.probes);
